@@ -159,6 +159,13 @@ def _sections(draw, max_ticks):
     lead = [it for it in items[:items.index(nlines[0])]]
     lead_sorted = sorted(lead, key=lambda it: it[0])
     items[:len(lead)] = lead_sorted
+    # LONG sections: the drawn block repeated with shifted ticks (size thresholds, chunked processing)
+    if draw(st.integers(0, 9)) == 0:
+        span = max(it[0] for it in items) + draw(st.sampled_from([1, 1, 50]))
+        reps = draw(st.sampled_from([30, 129, 300])) if n <= 8 else draw(st.sampled_from([10, 40]))
+        block = list(items)
+        for k in range(1, reps):
+            items += [[it[0] + k * span] + list(it[1:]) for it in block]
     # any of the 40 sections; sometimes a tempo so fast that neighbouring ticks share a timestamp
     # (grouping is by tick, not by time), sometimes a tempo change in the middle
     tempo = [[0, draw(st.sampled_from([120000, 120000, 10 ** 9, 1000]))]]
